@@ -280,6 +280,9 @@ QUICK = [
     # min_detection equal to the number of injected photons, lossy circuit, dark counts: a lost photon can be "repaired" by a dark count
     ("c18", "herald0_inout", (F(1), F(1, 4), True), "none", 2),
     ("c19", "herald1_lossy", (F(1, 2), F(1, 4), True), "none", 2),
+    # descending heralds under ideal detectors without min_detection (sample_N_outputs sees the outcomes with lost photons too)
+    ("c20", "herald2_desc", (F(1), F(0), True), "none", 0),
+    ("c21", "herald2_desc", (F(1), F(0), False), "none", 0),
 ]
 
 
